@@ -21,6 +21,13 @@ TRACE_CFG = "SPECIFICATION TraceSpec\nPOSTCONDITION TraceAccepted\nCHECK_DEADLOC
 REAL_FIELDS = [("limit", 7), ("boost", True), ("boostvar", 1), ("boostvar", 3), ("ponly", True), ("pboost", True), ("fuzzy", True), ("thr", -30), ("nlp", True), ("cap", 1),
                ("allplat", True), ("plats", ["windows"]), ("nocross", True)]
 QUERIES = {1: "frobnicate widget", 2: "FROBNICATE Widget", 3: "frobnicte"}
+# (query, an admissible re-spelling of it, a different query) with the options they are asked under; the different query of
+# the 2nd and 3rd set differs from the first only by a letter whose UPPER case is an ASCII letter (dotless i, long s);
+# the 4th set asks for every typo match, including those whose normalised quality is 0
+QSETS = [(QUERIES, {}),
+         ({1: "frobnicate widget", 2: " Frobnicate WIDGET ", 3: "frobnicate w\u0131dget"}, {}),
+         ({1: "sort frobnicate", 2: "SORT Frobnicate", 3: "\u017fort frobnicate"}, {}),
+         ({1: "frobnicte", 2: "FROBNICTE", 3: "frobnicate"}, {"fuzzy": True, "limit": 200, "allplat": True})]
 BASE = dict(entry="universal", limit=5, nlp=False, fuzzy=False, thr=0, ponly=False, pboost=False, allplat=False, plats=[], nocross=False,
             boost=False, query="raw", corpus="mix")
 
@@ -102,9 +109,10 @@ def run(ctx):
                 if q and (ti + pi) % 3:
                     continue
                 real = []
+                qset, over = QSETS[(ti + 2 * pi) % len(QSETS)]
                 for op in ops:
                     if op[0] == "search":
-                        real.append(["search", QUERIES[op[1]], real_opts(op[2], op[3], fa, fb), (ti + pi + len(real)) % 3 == 0])
+                        real.append(["search", qset[op[1]], dict(real_opts(op[2], op[3], fa, fb), **over), (ti + pi + len(real)) % 3 == 0])
                     elif op[0] == "vanish":
                         real += [["tick"], ["tick"], ["cleanup"]]
                     elif op[0] == "update":      # what the database is replaced by: permuted, shrunk, empty, single, grown
